@@ -10,6 +10,8 @@ A push overlapping `consume` is outside these theorems (known finding K-C16-stra
 by the harness with two deterministic schedules).
 -/
 import MetricsVerif.Proofs.Reservoir
+import MetricsVerif.Proofs.SrcShapes
+import MetricsVerif.Generated.SourceFacts
 
 namespace MetricsVerif.C16
 open MetricsVerif.Reservoir
@@ -220,5 +222,32 @@ example :
     is retained under exactly 6 of them -/
 example : (vectors 2 2).length = 12 ∧ retainCount 2 2 0 = 6 ∧ [0, 0] ∈ vectors 2 2 ∧ [2, 3] ∈ vectors 2 2 := by
   decide
+
+
+/-! ### source facts (regenerated from /repo on every run)
+
+The model's `push` claims an index with one RMW on `count`, stores into a slot, and asks the generator for a
+number below `idx + 1`; `consume` swaps the active side under the `swap` lock and drains the side that WAS
+active; dropping the drain resets that side's count.  These are the program points the theorems above are
+about; the translator reads them off the source. -/
+
+open MetricsVerif.Src in
+theorem src_reservoir_shape :
+    names Generated.shape_reservoir_push = ["count.fetch_add", "values.store", "values.store"]
+    ∧ Generated.reservoir_choice_range = "idx + 1"
+    ∧ names Generated.shape_reservoir_drain = ["count.load"]
+    ∧ names Generated.shape_reservoir_drain_drop = ["count.store"]
+    ∧ names Generated.shape_reservoir_outer_push = ["use_primary.load", "primary.push", "secondary.push"]
+    ∧ names Generated.shape_reservoir_consume
+        = ["swap.lock", "use_primary.load", "use_primary.store", "primary.drain", "secondary.drain"]
+    ∧ names Generated.shape_reservoir_is_empty = ["use_primary.load", "count.load", "count.load"] := by decide
+
+open MetricsVerif.Src in
+/-- the side switch is published with Release and observed with Acquire by the next consumer; the reset of the
+    drained side is a Release store -/
+theorem src_reservoir_orderings :
+    allRelease Generated.shape_reservoir_consume "use_primary.store" = true
+    ∧ allAcquire Generated.shape_reservoir_consume "use_primary.load" = true
+    ∧ allRelease Generated.shape_reservoir_drain_drop "count.store" = true := by decide
 
 end MetricsVerif.C16
